@@ -280,8 +280,24 @@ def run_case(case, ctx):
         # scalar seeds are sometimes handed over as (mutable) 0-d arrays
         return [np.array(w) if (w is not None and np.ndim(w) == 0 and not hasattr(w, "todense") and rng.random() < 0.5) else w for w in out]
 
+    # in one case out of four the caller keeps one seed buffer per output and writes each new seed into it (what a pre-allocated
+    # output sensitivity or an optimiser's work array amounts to): the same array object then carries different values
+    inplace = rng.random() < 0.25
+    bufs = {}
+    if inplace:
+        ctx.count("cases_with_seed_buffers_reused_in_place")
+
     def backprop(w, times=1):
         st = _states(mod)
+        if inplace:
+            w = list(w)
+            for j, wj in enumerate(w):
+                if isinstance(wj, np.ndarray) and wj.ndim >= 1:
+                    if j in bufs and bufs[j].shape == wj.shape and bufs[j].dtype == wj.dtype:
+                        bufs[j][...] = wj
+                        w[j] = bufs[j]
+                    else:
+                        bufs[j] = wj
         keep = [copy.deepcopy(wj) for wj in w]
         for s, wj in zip(mod.sig_out, w):
             s.sensitivity = wj
